@@ -321,3 +321,25 @@ func derefType(t types.Type) types.Type {
 	}
 	panic("deref of non-pointer " + typeKey(t))
 }
+
+// isRefLeaf reports whether a leaf holds an object reference (pointer, map, channel, function value,
+// the backing array of a slice). References share their 32-bit sort with uint32/int32 values, strings and
+// dynamic-type tags, so the sort alone must not be used to recognise them.
+func isRefLeaf(l Leaf) bool {
+	if l.sort != RefS {
+		return false
+	}
+	if l.kind == "arr" {
+		return true
+	}
+	if l.kind != "" {
+		return false
+	}
+	switch u := l.ty.Underlying().(type) {
+	case *types.Pointer, *types.Map, *types.Chan, *types.Signature:
+		return true
+	case *types.Basic:
+		return u.Kind() == types.UnsafePointer || u.Kind() == types.UntypedNil
+	}
+	return false
+}
